@@ -2461,6 +2461,10 @@ func raceChild(res *hx.Result, outdir, child string, env []string, what string) 
 // ---------- child ----------
 
 func childC17(res *hx.Result, rng *hx.Rng, tier string, outdir string) {
+	if os.Getenv("QV_C17_REAL") == "1" {
+		childReal17(res, tier, outdir)
+		return
+	}
 	if n, _ := strconv.Atoi(os.Getenv("QV_C17_STRESS")); n > 0 {
 		f, err := os.OpenFile(filepath.Join(outdir, "C17_stress.jsonl"), os.O_APPEND|os.O_CREATE|os.O_WRONLY, 0o644)
 		if err != nil {
@@ -2641,6 +2645,7 @@ func runC17(res *hx.Result, rng *hx.Rng, tier string, outdir string) {
 			exhCount(exhModelLetters, exhModelLen), exhModelLen, exhModelLetters,
 			exhCount(exhDeepLetters, exhDeepLen)-exhCount(exhDeepLetters, exhModelLen), exhModelLen+1, exhDeepLen, exhDeepLetters))
 	}
+	runReal17(res, tier, outdir)
 	runStress17(res, tier, outdir)
 }
 
